@@ -3,7 +3,7 @@
 # at the time (SEED_BASE), stored as /verif/seeded/<Cxx>-<newk>/
 set -u
 id=$1; k=$2; nk=$3; BASE=${SEED_BASE:-64b068a}
-src=/tmp/seed2/$id.out
+src=${SEED_SRC:-/tmp/seed2}/$id.out
 wt=/var/tmp/confirm2.$id.$k
 log=/var/tmp/confirm2.$id.$k.log
 : > $log
@@ -26,7 +26,7 @@ import json,sys
 src,dst,pid,base,suite=sys.argv[1:6]
 try: m=json.load(open(src))
 except Exception: m={}
-out={"property":pid,"summary":m.get("summary",""),"needs":m.get("needs",""),"files":m.get("files",[]),"round":2,
+out={"property":pid,"summary":m.get("summary",""),"needs":m.get("needs",""),"files":m.get("files",[]),"round":int(__import__("os").environ.get("SEED_ROUND","2")),
      "base_commit":base,
      "confirmed":{"ran":"tools/confirm_seed2.sh: scratch worktree of the base commit; demo.py without the patch (exit 0), with the patch (exit != 0); full repository suite with the patch compared test-by-test with the same suite on the base commit",
                   "demo_without_patch":"PASS","demo_with_patch":"FAIL","suite_with_patch":suite,"suite_vs_baseline":"identical set of failing/erroring tests"},
